@@ -107,6 +107,16 @@ def run(tier):
     # overwritten with boundary values, truncations) through intersecting_patches and select_next_patches
     res = vlib.run_harness("fv-ift", ["c19", "hostilemaps", "--seed", vlib.seed(), "--n", 12 if tier == "quick" else 80, "--out", os.path.join(wd, "hostilemaps.ndjson")], timeout=1200)
     ck.add_harness("hostile-maps:ift", res, traces=False)
+    # which cmap subtable the character map answers from: CharmapSelect.tla's decision table on raw cmap tables with up to
+    # 2 (thorough 3) encoding records of every platform / encoding / format kind
+    vlib.stage_specs(wd, "charmap")
+    r = vlib.run_tlc(wd, "CharmapSelectMC", cfg="CharmapSelectMC_%s.cfg" % tier, workers=4, timeout=900, out_name="charmap.out")
+    ck.add_tlc("tlc:CharmapSelect", r)
+    if not r.ok:
+        ck.spec_error("CharmapSelectMC", r)
+    res = vlib.run_harness("fv-total", ["c02", "charmap", "--cases", r.out, "--out", os.path.join(wd, "charmap.ndjson")], timeout=1200)
+    ck.add_harness("replay:charmap-selection", res, traces=False)
+    os.remove(r.out)
     # the CFF / CFF2 charstring evaluator: Charstring.tla as a state machine over a program family (bounds, halting), every
     # program replayed on the real evaluator in a child process, and the charstrings of the corpus CFF fonts validated
     vlib.stage_specs(wd, "cff")
